@@ -34,6 +34,29 @@ class CutDirector(FaultDirector):
         super().__init__(rng, spec)
         self.cut = cut
 
+    race = None          # {"p", "delay"}: hold the reply to the first Fetch of partition p at an out-of-range offset
+    on_race = None       # ... and tell the driver, which seeks while that reply is in flight
+
+    slow_offset_fetch = 0.0
+
+    def plan(self, cluster, ctx):
+        plan = super().plan(cluster, ctx)
+        if ctx.api == "OffsetFetch" and self.slow_offset_fetch:
+            plan.delay_out = max(plan.delay_out, self.slow_offset_fetch)
+        if self.race and ctx.api == "Fetch" and plan.fault is None:
+            for topic, parts in ctx.req.topics:
+                for pinfo in parts:
+                    off = pinfo[2] if ctx.v >= 9 else pinfo[1]
+                    pl = cluster.parts.get((topic, pinfo[0]))
+                    if pl is not None and pinfo[0] == self.race["p"] and pl.leader == ctx.node \
+                            and (off < pl.log_start or off > pl.leo):
+                        plan.delay_out = max(plan.delay_out, self.race["delay"])
+                        cb, self.race = self.on_race, None
+                        if cb:
+                            cb()
+                        return plan
+        return plan
+
     def fetch_cut(self, cluster, ctx, tpn, off, navail):
         if self.cut == "one":
             return 1
@@ -173,6 +196,10 @@ def run_scenario(sc: dict):
                   max_poll_records=sc.get("max_poll_records"))
         if sc.get("group"):
             kw["group_id"] = GROUP
+        for p_, dur in sc.get("noleader", []):
+            # leader election in progress for p_: Metadata names no leader until `dur`
+            director.stale[(TOPIC, p_)] = -1
+            loop.call_later(dur, lambda p_=p_: director.stale.pop((TOPIC, p_), None), context=cl.ctx)
         cons = AIOKafkaConsumer(**kw)
         await cons.start()
         cons._fetcher._records = ObsDict()
@@ -187,6 +214,14 @@ def run_scenario(sc: dict):
         for ev in sc.get("env", []):
             if ev[1] == "move":
                 loop.call_later(ev[0], cl.move_leader, TOPIC, ev[2], ev[3])
+        director.slow_offset_fetch = sc.get("slow_offset_fetch", 0.0)
+        if sc.get("oor_race"):
+            # the application seeks while the broker's OFFSET_OUT_OF_RANGE answer for the old position is in flight
+            rc = sc["oor_race"]
+            director.race = {"p": rc["p"], "delay": rc["delay"]}
+            ctx_app = __import__("contextvars").copy_context()
+            director.on_race = lambda: loop.call_later(rc["delay"] * rc.get("at", 0.5), lambda: cons.seek(tps[rc["p"]], rc["seek"]),
+                                                       context=ctx_app)
 
         async def task(ti, ops):
             for op in ops:
